@@ -178,7 +178,13 @@ Dispatch(m, svc, segs, data, cap, choice, kind, viaUcs, routeSegs) ==
 (* One request frame.                                                                                              *)
 TxStep0(m, ev) ==
     \* a connection whose size is not the one the driver packs for breaks every transfer sized between the two
-    LET SizeUsers == IF m.lx.on THEN "+C01:negotiated-size+C02:negotiated-size" ELSE "" IN
+    LET SizeUsers == IF m.lx.on THEN "+C01:negotiated-size+C02:negotiated-size" ELSE ""
+        \* a frame the target cannot serve: the call it belongs to cannot succeed on a real target
+        Undeliverable == CASE m.call.api = "read" -> (IF m.kind = "slc" THEN "+C18:request-undeliverable" ELSE "+C01:request-undeliverable+C03:request-undeliverable")
+                           [] m.call.api = "write" -> (IF m.kind = "slc" THEN "+C18:request-undeliverable" ELSE "+C02:request-undeliverable+C03:request-undeliverable")
+                           [] m.call.api \in {"open", "enter", "get_tag_list"} /\ m.lx.on -> "+C05:request-undeliverable"
+                           [] OTHER -> ""
+    IN
     IF Has(ev.choice, "incomplete") THEN Bad(m, "C11:framing")
     ELSE LET pf == ParseFrame(ev.b)  ch == ev.choice IN
     IF ~pf.ok THEN Bad(m, pf.why \o (IF m.call.api \in {"open", "enter"} THEN (IF m.closedOnce THEN "+C10:reopen" ELSE "+C10:open-failed")
@@ -259,11 +265,15 @@ TxStep0(m, ev) ==
         ELSE LET c == ConnOf(m, pf.cid)  seq == U16(pf.item, 1) IN
         IF c.sess # pf.handle THEN Bad(m, "C10:connected-before-open+C11:cid")
         ELSE IF Len(pf.item) > c.size       \* a frame the connection cannot carry: the call it belongs to cannot succeed on a real target
-             THEN Bad(m, "C04:request-too-large" \o (IF m.call.api = "read" THEN "+C01:request-undeliverable+C03:request-undeliverable"
-                                                      ELSE IF m.call.api = "write" THEN "+C02:request-undeliverable+C03:request-undeliverable" ELSE ""))
+             THEN Bad(m, "C04:request-too-large" \o Undeliverable)
         ELSE IF seq = c.lastSeq THEN Bad(m, "C17:repeat")
         ELSE LET q == MRParse(SubSeq(pf.item, 3, Len(pf.item))) IN
-        IF ~q.ok THEN Bad(m, "C14:malformed-request")
+        IF ~q.ok THEN
+            \* when the item is a well-formed request FOLLOWED by two bytes, the sequence count was put behind the request: the
+            \* target takes the first word (constant for a given service and path) for the count
+            LET alt == IF Len(pf.item) >= 6 THEN MRParse(SubSeq(pf.item, 1, Len(pf.item) - 2)) ELSE [ok |-> FALSE]
+                misplaced == alt.ok /\ ParsePadded(alt.path).ok
+            IN Bad(m, "C14:malformed-request" \o (IF misplaced THEN "+C17:count-not-first+C11:connected-item" ELSE "") \o Undeliverable)
         ELSE LET pp == ParsePadded(q.path) IN
         IF ~pp.ok THEN Bad(m, "C09:parse")
         ELSE LET r == Dispatch(m, q.svc, pp.segs, q.data, c.size - 2, ch, "unit", FALSE, <<>>) IN
